@@ -399,6 +399,12 @@ def c17_run(run, binary, cases, tag):
                 fails.append("final state / classical register differ between incremental and whole interpretation")
             if a["rec"] != len(case["chunks"]):
                 fails.append("record lists %d chunks, %d were accepted" % (a["rec"], len(case["chunks"])))
+            want = [qasmcheck.fnv(t) for t in (case.get("texts") or [qa.p_program(c, None) for c in case["chunks"]])]
+            if a.get("rech") is not None and a["rech"] != want:
+                fails.append("the record does not list the accepted chunks once each, in order (positions of the recorded sources: %s)"
+                             % [want.index(h) if h in want else None for h in a["rech"]])
+            if a.get("reci") is False:
+                fails.append("iter_ast and into_iter_ast list different records")
             if a["qa"] != b["qa"] or a["ca"] != b["ca"]:
                 fails.append("register layout differs")
         return fails
